@@ -3,4 +3,4 @@
 J=3; TIER=quick
 while [[ "$1" == -* ]]; do case "$1" in -j) J=$2; shift 2;; --tier) TIER=$2; shift 2;; esac; done
 mkdir -p /verif/_build/runall
-printf "%s\n" "$@" | xargs -P $J -I{} bash -c 'cd /verif; s=$(date +%s); timeout 3000 ./check {} --tier '$TIER' > _build/runall/{}.log 2>&1; echo "{} exit=$? $(( $(date +%s)-s ))s $(tail -1 _build/runall/{}.log | cut -c1-150)"'
+printf "%s\n" "$@" | xargs -P $J -I{} bash -c 'cd /verif; s=$(date +%s); timeout 6000 ./check {} --tier '$TIER' > _build/runall/{}.log 2>&1; echo "{} exit=$? $(( $(date +%s)-s ))s $(tail -1 _build/runall/{}.log | cut -c1-150)"'
